@@ -184,14 +184,20 @@ Proof. exact OInv_satisfiable. Qed.
 Print Assumptions vdataz_fault_inv_satisfiable.
 
 (* ---------------------------------------------------------------- the vnacal_new_t allocation skeleton (Mem/NewAlloc.v) *)
-Require Import LV.Mem.NewAlloc LV.Mem.NewAllocProofs.
+Require Import LV.Mem.NewAlloc LV.Mem.NewAllocProofs LV.Mem.NewHoldProofs.
 
 (* every call of the life cycle with any fault point ([s] is arbitrary): it completes with Done or an errno class and the world
    invariant holds again (nothing orphaned, nothing dangling), so every later call is safe and vnacal_free releases everything
-   (new_no_fault / new_no_leak_partial of Properties_C03.v with k = Some _) *)
+   (new_no_fault / new_no_leak of Properties_C03.v with k = Some _) *)
 Theorem new_fault_clean : forall w op s, WInv w s -> exists w' o s', wstep NFixed w op s = Ok ((w', o), s') /\ WInv w' s'.
 Proof. exact new_fault_clean_lemma. Qed.
 Print Assumptions new_fault_clean.
+
+(* with one failing request anywhere in the history: nothing left in the ledger, every hold given back *)
+Theorem new_fault_history : forall ks ops k os held s', cfg_ok ks ->
+  whistory NFixed ks ops (start (Some k)) = Ok ((os, held), s') -> live s' = [] /\ forall h, In h held -> h = 0%nat.
+Proof. intros ks ops k; exact (new_no_leak_full_lemma ks ops (Some k)). Qed.
+Print Assumptions new_fault_history.
 
 Theorem new_fault_history_no_fault : forall ks ops k f, cfg_ok ks -> whistory NFixed ks ops (start (Some k)) <> Fault f.
 Proof. intros ks ops k; exact (new_no_fault_lemma ks ops (Some k)). Qed.
